@@ -175,7 +175,7 @@ func TestDoubleSpendHistory(t *testing.T) {
 		nops := rapid.IntRange(4, 24).Draw(t, "nops")
 		for i := 0; i < nops; i++ {
 			op := rapid.SampledFrom([]string{"a2u", "transfer", "spend", "spend", "respend-pending", "respend-committed", "dup-ki-in-tx", "inject-two-spends", "inject-committed-spend",
-				"inject-tx-twice", "inject-replay-old", "inject-nonce-gap", "inject-reorder", "resubmit-committed", "commit", "commit", "restart", "concurrent-respend"}).Draw(t, "op")
+				"inject-tx-twice", "inject-replay-old", "inject-nonce-gap", "inject-reorder", "resubmit-committed", "commit", "commit", "commit-foreign", "commit-foreign", "restart", "concurrent-respend"}).Draw(t, "op")
 			switch op {
 			case "a2u":
 				if g := s.GenA2U(t); g != nil {
@@ -194,6 +194,34 @@ func TestDoubleSpendHistory(t *testing.T) {
 					if err == nil {
 						e.pending = append(e.pending, g)
 					}
+				}
+			case "commit-foreign":
+				// a block proposed by ANOTHER validator is committed: it carries none of this node's pending transactions (it
+				// is empty or holds one transfer this node never saw), so everything pending stays pending across the commit
+				var txs types.Txs
+				if rapid.Bool().Draw(t, "foreigntx") {
+					from := s.Accts[rapid.IntRange(0, len(s.Accts)-1).Draw(t, "from")]
+					txs = types.Txs{world.Transfer(from, s.Committed().GetNonce(from.Addr), s.Sinks()[1], big.NewInt(int64(1+i)))}
+				}
+				var blk *types.Block
+				var pan interface{}
+				func() {
+					defer func() { pan = recover() }()
+					b := s.W.BlockOf(txs, world.GenesisTime+uint64(10*(s.W.Height()+1)), cfg.ContractFoundationAddr)
+					s.W.App.PreRunBlock(b)
+					blk, _ = world.CopyBlock(b)
+				}()
+				if pan != nil || blk == nil {
+					e.logf("%s: could not be built: %v", op, pan)
+					continue
+				}
+				npend := len(e.pending)
+				if !e.commit(t, blk, "foreign block") {
+					return
+				}
+				e.logf("%s: block %d with %d foreign txs committed, %d confidential spends stay pending", op, blk.Height, len(txs), npend)
+				if npend > 0 {
+					vstat.Label("foreign_block_committed_over_pending_spends")
 				}
 			case "respend-pending":
 				if len(e.pending) == 0 {
